@@ -334,15 +334,24 @@ def snapping(ctx: Ctx):
         ok = isinstance(v, ast.Call) and flow.dump(v.func) == "EntityPosition" and len(v.args) == 2 and flow.dump(v.args[0]) == f"{link}.link_id"
         on_line = False
         if ok:
-            c = flow.dump(v.args[1])
-            if c == g:
-                on_line = any(flow.dump(a) == f"{g} in {line}" and pol is True for a, pol in p.facts())
-            elif c.startswith(f"sorted({line}, key=") and c.endswith("[0]"):
-                on_line = True
+            # every alternative of the cell (arms of a conditional expression count with their condition) is an element of the line
+            def cell_ok(e, extra):
+                e = flow.core(e)
+                if isinstance(e, ast.IfExp):
+                    return cell_ok(e.body, extra + flow.implied(e.test, True)) and cell_ok(e.orelse, extra + flow.implied(e.test, False))
+                c = flow.dump(e)
+                if c == g:
+                    return any(flow.dump(a) == f"{g} in {line}" and pol is True for a, pol in list(p.facts()) + extra)
+                if c.startswith(f"sorted({line}, key=") and c.endswith("[0]"):
+                    return True
+                if c.startswith(f"min({line}, key=") or c.startswith(f"max({line}, key="):
+                    return True  # an element of the (never empty) line, whichever the key prefers
+                return False
+            on_line = cell_ok(v.args[1], [])
         ctx.check(ok and on_line, "D4", "DU.snap", "snapping pairs the nearest link's id with a cell drawn from h3_line(link.start, link.end)", fn, p.end,
                   why_bad=flow.dump(v)[:200], construct="position_from_geoid:cell")
-    if n < 2:
-        ctx.soft_fail("position_from_geoid: expected two snapping returns")
+    if n < 1:
+        ctx.soft_fail("position_from_geoid: no snapping return")
 
 
 def _kd_points_in_h3_order(lh) -> bool:
